@@ -21,6 +21,7 @@ import (
 	"crypto/sha256"
 	"encoding/hex"
 	"testing"
+	"time"
 
 	"github.com/AdguardTeam/AdGuardDNS/verif/vkit"
 )
@@ -37,6 +38,8 @@ func TestCheck(t *testing.T) {
 		"(6 profiles with different blocking modes, filtered-response TTLs and custom rules, each via DoT SNI, DoH path and linked IP; 5 kinds of anonymous clients) x 14 qtypes x EDNS shapes x CHAOS debug; " +
 		"class = (name class, requester, qtype, qclass, edns); a case is non-trivial iff, in the concurrent phase, at least one other request was in flight while it was served (measured). " +
 		"cache-population: scripted histories of three different clients of one cache key on a shared instance (first with ECS option / without AD+DO, later without ECS / with AD, ECS-dependent and plain names, plus a control order), every response compared with the same request processed alone on a fresh stack; class = (variant, qtype, DO, servers); non-trivial iff the first request was a miss and a later one was served from the cache (measured by upstream calls). " +
+		"simple-cache: scripted histories on a stack with the simple cache middleware (miss, fresh hit released into the pools, requests of other profiles that draw records of the same type from the pools, later hits) for 7 record types, each response compared with the same request processed alone on a fresh stack; non-trivial iff the fresh hit was served with undecayed TTLs and a later hit followed (measured). " +
+		"shared-rule-list: real filter storage with index rule lists and result caches; two profiles sharing one list (3 resp. 5 matching rules from different lookup tables) with different further lists ask the same hosts from 32 goroutines; each response compared with its profile's processed-alone response; non-trivial iff another request was in flight (measured). " +
 		"heap: seeded histories of 200 operations (build / wire-parse / constructor call / Clone / Dispose / drop / modify in place) over the full RR, SVCB-parameter and EDNS-option alphabet with slice lengths 0..8; " +
 		"class = hash of the (operation, message kind) sequence; non-trivial iff something was cloned or constructed after a Dispose while another message was live (and, for the 8-goroutine variant, goroutines really overlapped).")
 	r.Assume("upstream answers are a pure function of the question (plus the client subnet for the ECS-dependent name class), with one TTL for all records of an answer and lower-case owner names")
@@ -44,7 +47,9 @@ func TestCheck(t *testing.T) {
 	r.Assume("DNS-rewrite rules for HTTPS carry one SVCB parameter (the constructor iterates a Go map, so the order of several parameters is random by design)")
 	r.Assume("a message is released at most once and never used by its owner afterwards; generated messages share no memory with each other")
 
+	tHeap := time.Now()
 	httpsDefect := runHeapMonitor(r)
+	r.Extra("heap_monitor_seconds", time.Since(tHeap).Seconds())
 	runStackMonitor(t, r, httpsDefect)
 
 	// coverage gates (minima far below what the unchanged tree yields)
@@ -67,6 +72,15 @@ func TestCheck(t *testing.T) {
 	r.Require("stack_cachepop_pairs_noad-then-ad", 30)
 	r.Require("stack_cachepop_first_answer_carried_its_ecs_option", 30)
 	r.Require("stack_cachepop_later_alone_answer_has_ad", 30)
+	// simple-cache configuration: histories miss -> fresh hit (released) -> pool
+	// draws of the same record type -> later hits must really have happened
+	r.Require("stack_simplecache_histories_with_fresh_hit_and_later_hit", 32)
+	r.Require("stack_simplecache_later_hits_after_fresh_hit", 64)
+	r.Require("stack_simplecache_pool_draw_answers", 150)
+	// shared rule list: both profiles' processed-alone verdicts differ on every
+	// hot host, and enough requests of both profiles overlapped on them
+	r.Require("stack_rulelist_hosts_where_alone_verdicts_differ", 2)
+	r.Require("stack_rulelist_concurrent_requests_overlapping", 4000)
 	r.Require("heap_clone_calls", 5000)
 	r.Require("heap_dispose_calls", 5000)
 	r.Require("heap_dispose_wire", 1000)
